@@ -106,6 +106,15 @@ func (s *Swarm[T]) PublicKey() x509.PublicKey {
 
 // LookupPublicKey implements p2p.SecureSwarm.PublicKey
 func (s *Swarm[T]) LookupPublicKey(ctx context.Context, dst Addr[T]) (ret x509.PublicKey, _ error) {
+	// A key already authenticated at this transport address is answered from memory:
+	// handlers look up the sender of the message they were given with an expired context,
+	// also while the channel is between sessions.
+	if cs, exists := s.store.get(s.keyForAddr(dst.Addr)); exists {
+		remoteKey := cs.Channel.RemoteKey()
+		if !remoteKey.IsZero() && s.config.fingerprinter(&remoteKey) == dst.ID {
+			return remoteKey, nil
+		}
+	}
 	c, err := s.getFullAddr(ctx, dst)
 	if err != nil {
 		return ret, err
